@@ -223,6 +223,29 @@ def corpus():
     y3 = json.loads(json.dumps(y2)); y3["defs"]["V1"]["value"] = 6
     out.append([y0, y1, y2, y3])
     # keyword-only defaults of functions that have no positional default
+    # a caller that named its callee, is re-defined so that it reaches the callee through a hidden call only, and the callee is
+    # edited afterwards (also one level down, through a helper)
+    u0 = dict(defs={"m1": _fn("memento", []), "h1": _fn("plain", [["m1", "bare"]]), "m2": _fn("memento", [["m1", "bare"]]),
+                    "m3": _fn("memento", [["h1", "bare"]])}, order=["m1", "h1", "m2", "m3"])
+    u1 = json.loads(json.dumps(u0)); u1["defs"]["m2"]["refs"] = [["m1", "hidden"]]; u1["defs"]["h1"]["refs"] = [["m1", "hidden"]]
+    u2 = json.loads(json.dumps(u1)); u2["defs"]["m1"]["const"] = 7
+    u3 = json.loads(json.dumps(u2)); u3["defs"]["m2"]["refs"] = [["m1", "bare"]]
+    out.append([u0, u1, u2, u3])
+    # a builtin used by a memento function (and by a helper below another one) is shadowed by a function the module defines
+    # later, which is then edited
+    b0 = dict(defs={"h1": _fn("plain", [["abs", "bare"]]), "m1": _fn("memento", [["abs", "bare"]]), "m2": _fn("memento", [["h1", "bare"], ["m1", "bare"]])},
+              order=["h1", "m1", "m2"], late_builtin=["abs"])
+    b1 = json.loads(json.dumps(b0)); b1["defs"]["abs"] = _fn("plain", [], const=4); b1["order"] = ["abs", "h1", "m1", "m2"]
+    b2 = json.loads(json.dumps(b1)); b2["defs"]["abs"]["const"] = 5
+    out.append([b0, b1, b2])
+    # the names of two required keyword-only parameters of a helper change places together with their uses (same bytecode,
+    # other meaning for the keyword callers), directly below a memento function and one level further down
+    q0 = dict(defs={"h1": _fn("plain", [], kw2=0), "h2": _fn("plain", [["h1", "bare"]], kw2=1), "m1": _fn("memento", [["h2", "bare"]]),
+                    "m2": _fn("memento", [["m1", "bare"], ["h1", "alias"]])}, order=["h1", "h2", "m1", "m2"])
+    q1 = json.loads(json.dumps(q0)); q1["defs"]["h1"]["kw2"] = 1
+    q2 = json.loads(json.dumps(q1)); q2["defs"]["h2"]["kw2"] = 0
+    q3 = json.loads(json.dumps(q2)); q3["defs"]["h1"]["kw2"] = 0
+    out.append([q0, q1, q2, q3])
     k0 = dict(defs={"h1": _fn("plain", [], kwd=5), "m1": _fn("memento", [["h1", "bare"]], kwd=5), "m2": _fn("memento", [["m1", "bare"]])},
               order=["h1", "m1", "m2"])
     k1 = json.loads(json.dumps(k0)); k1["defs"]["m1"]["kwd"] = 6
@@ -287,7 +310,7 @@ def main(chk, replay=None):
     def work(seed):
         import random
         r = random.Random(seed)
-        prog = vprogs.gen_prog(r, nm=r.randint(2, 4), hidden_rate=0.05)
+        prog = vprogs.gen_prog(r, nm=r.randint(2, 4), hidden_rate=0.05, kw2_rate=0.15)
         eds = [prog]
         logs = []
         for _ in range(r.randint(1, steps)):
